@@ -1422,6 +1422,11 @@ class Macro:
                     idx += 1
                     res_tokens.append(last)
                     res_tokens.append(tok)
+                    # The right operand of ## is used unexpanded as well: it
+                    # does not make its parameter need pre-expansion.
+                    if idx < len(self.replacement):
+                        res_tokens.append(self.replacement[idx])
+                        idx += 1
                     self.has_strcat = True
                     continue
                 idx += 1
